@@ -194,3 +194,16 @@ VARIANTS += [
  V("c38-o1-seqnum-after-unlock", "C38", "C38.O1", "checkpoint.go",
    "	visibleSeqNum := d.mu.versions.visibleSeqNum.Load()\n\n	// Release the manifest", "	d.mu.versions.logUnlock()\n	visibleSeqNum := d.mu.versions.visibleSeqNum.Load()\n	d.mu.versions.logLock()\n\n	// Release the manifest"),
 ]
+
+VARIANTS += [
+ V("c36-o1-remove-originals-on-error", "C36", "C36.O1", "ingest.go",
+   "	d.commit.AllocateSeqNum(seqNumCount, prepare, apply)\n", "	for i := range loadResult.local {\n		_ = d.opts.FS.Remove(loadResult.local[i].local.Path)\n	}\n	d.commit.AllocateSeqNum(seqNumCount, prepare, apply)\n"),
+ V("c36-o3-queue-before-wal-write", "C36", "C36.O3", "ingest.go",
+   "		err := d.commit.directWrite(b)\n		if err != nil {\n			d.opts.Logger.Fatalf(\"%v\", err)\n		}", "		if err := d.commit.directWrite(b); err != nil {\n			d.opts.Logger.Errorf(\"%v\", err)\n		}"),
+ V("c36-r1-register-after-unlock", "C36", "C36.R1", "ingest.go",
+   "				d.mu.snapshots.ongoingExcises[seqNum] = args.ExciseSpan\n			}\n			d.mu.Unlock()", "				d.mu.Unlock()\n				d.mu.snapshots.ongoingExcises[seqNum] = args.ExciseSpan\n				d.mu.Lock()\n			}\n			d.mu.Unlock()"),
+ V("c37-o1-close-before-store", "C37", "C37.O1", "snapshot.go",
+   "	es.mu.vers = vers\n", "	defer func() { es.mu.vers = vers }()\n"),
+ V("c37-p3-reintroduce-leak", "C37", "C04.P3", "snapshot.go",
+   "	case <-es.closed:\n		vers.UnrefLocked()\n", "	case <-es.closed:\n"),
+]
